@@ -64,6 +64,9 @@ THEOREMS = {
         ],
     },
     "C05": {
+        "JP.Props.C17decode": [
+            "JP.C17.decode_mapraw",
+        ],
         "JP.Props.C01ensure": [
             "JP.C01.c05_never_violated_all",
         ],
@@ -137,6 +140,9 @@ THEOREMS = {
         ],
     },
     "C09": {
+        "JP.Props.C17decode": [
+            "JP.C17.decode_null_keeps_lastKeys", "JP.C17.decode_mapraw",
+        ],
         "JP.Props.C09": [
             "JP.C09.scan_reset", "JP.C09.history_independent_scanner", "JP.C09.history_independent_marshal",
             "JP.C09.history_independent_unmarshal", "JP.C09.history_independent_unmarshal_library",
@@ -155,6 +161,9 @@ THEOREMS = {
         ],
     },
     "C11": {
+        "JP.Props.C17decode": [
+            "JP.C17.decode_patch", "JP.C17.decode_patch_error",
+        ],
         "JP.Props.C16": [
             "JP.C16.scanner_iff",
         ],
@@ -262,6 +271,13 @@ THEOREMS = {
         ],
     },
     "C17": {
+        "JP.Props.C17decode": [
+            "JP.C17.decode_mapraw", "JP.C17.decode_sliceraw", "JP.C17.decode_patch",
+            "JP.C17.decode_patch_error", "JP.C17.decode_any", "JP.C17.decode_mapany",
+            "JP.C17.decode_string", "JP.C17.decode_string_error", "JP.C17.decode_null_keeps_lastKeys",
+            "JP.C17.decode_type_errors", "JP.C17.checked_agrees", "JP.C17.checked_rejects",
+            "JP.C17.decode_spec",
+        ],
         "JP.Props.C17encode": [
             "JP.C17.marshal_node", "JP.C17.marshal_node_flags", "JP.C17.marshal_node_toGo",
             "JP.C17.marshal_root", "JP.C17.deepCopy_rep", "JP.C17.trustMarshalJSON_member",
@@ -339,8 +355,8 @@ OPEN = {
     "C10": ["data-race freedom under the Go memory model: executed schedules only (race detector)"],
     "C15": ["tests_transparent holds outside the known-finding trigger class and for duplicate-free names (C15.counterexample_dup shows duplicates break it: outside every property's domain)"],
     "C16": ["Apply with leading CR before an ARRAY document: accepted, but pointers with an empty first token see the `isArray` quirk (C16.apply_ws needs CR-free white space for arrays; outside the RFC pointer domain)"],
-    "C17": ["the reflective DECODER is described at value level (decodeDoc/childOf/anyOf); its literal model JP/Codec/Decode is in progress (the encoder is modelled literally in JP/Codec/Encode.lean and proved to print cstOf / marshalAnyE)",
-            "struct tags, float formatting, Decoder/Encoder streams: differential testing only"],
+    "C17": ["struct tags, float formatting, Decoder/Encoder streams and Go types outside the library's target shapes: differential testing against encoding/json only",
+            "the unchecked entry points (UnmarshalValid*) on ILL-FORMED texts: model validated by testing only (the library never calls them behind a failed Valid gate)"],
     "C19": ["CreateMergePatch is modelled for plain-integer numbers only (float64 formatting is not modelled): the `createModelled` domain marker"],
     "C20": ["go-flags, OS, process exit: observed only"],
 }
